@@ -69,8 +69,9 @@ CLAIMED = {
             'announced_are_the_sent_events, deliveries_once_in_order, detached_gets_nothing, sent_is_queued_internally, bind_forwards_to_callable/'
             'interpreter, forwarded_payload. ' + TIE, '§6 C15'),
     'C16': ('Lean 4 proof: every failed edit returns the chart unchanged (atomicity), effects of successful edits, transitions stay anchored + correspondence on edit scripts',
-            'add/remove/rename/move/rotate *_atomic, *_effect, transitions_stay_anchored_*. PARTIAL: remove_state atomicity for known states and '
-            'tree invariants under move are checked by the tie. ' + TIE, '§6 C16'),
+            'add/remove/rename/move/rotate *_atomic, *_effect, transitions_stay_anchored_* for all seven operations, '
+            'any_edit_session_keeps_transitions_anchored (every sequence of edits, succeeding or raising), built_charts_have_anchored_transitions. '
+            'PARTIAL: the parent/children tree invariants under add/remove/rename/move_state are checked by the tie. ' + TIE, '§6 C16'),
     'C17': ('Lean 4 proof: rename substitutes exactly the transition ends, keeps internal transitions internal, is atomic + guest/copy correspondence',
             'rename_substitutes_transition_ends, rename_keeps_internal, rename_to_itself, rename_atomic. PARTIAL: behavioural equivariance of the '
             'renamed chart is checked by the tie (lock-step runs), not proved. ' + TIE, '§6 C17'),
